@@ -130,26 +130,32 @@ def _tuple_index_returned(kb):
 
 
 def r3(F, R):
-    runs = [b for adt, b in roles.trait_impl_methods(F, r"runner::Runner$", "run") if adt == "runner::basic::Basic"]
-    if len(runs) != 1:
-        raise Unverifiable("Runner::run impl")
-    run = runs[0]
+    """CLI retry options override the builder's, decided on the deep path table of Runner::run (roles.run_merge_table): the
+    Cli handed to the ingestion carries, per option, the CLI value when given and the builder value otherwise."""
+    run, paths, H = roles.run_merge_table(F)
+    D = H["D"]
     want = {"retry": "retries", "retry_after": "retry_after", "retry_tag_filter": "retry_filter"}
-    seen = set()
-    for s, st in run.assigns(lambda st: st["pl"]["p"] and place_fields(st["pl"]) and place_fields(st["pl"])[-1][0] == "runner::basic::Cli"):
-        fld = place_fields(st["pl"])[-1][1]
-        if fld not in want:
-            continue
-        seen.add(fld)
-        ch = A.receiver_chain(run, A.rvalue_operands(st["rv"])[0])
-        ok = False
-        if ch and callee_is(ch[0][1], r"Option::<.*>::or$"):
-            a0 = A.slice_back(run, [ch[0][1]["args"][0]], stop_calls=[r"Option::<.*>::or$"]).fields
-            a1 = A.slice_back(run, [ch[0][1]["args"][1]], stop_calls=[r"Option::<.*>::or$"]).fields
-            ok = ("runner::basic::Cli", fld) in a0 and ("runner::basic::Basic", want[fld]) in a1 and ("runner::basic::Basic", want[fld]) not in a0
-        R.check(ok, f"cli-over-builder/{fld}", s, f"cli.{fld} = cli.{fld}.or(builder.{want[fld]})", f"`{fld}` is not resolved as CLI value first, builder value second")
-    R.check(seen == set(want), "cli-over-builder/all-three", run, "", f"only {sorted(seen)} are merged with the builder values")
-    # the merged cli is what the ingestion gets
+    cli_fidx = {n: H["cli"](n)[2] for n in want}
+
+    def cli_passed(p):
+        e = H["ingest"](p)
+        if e is None:
+            return None
+        for a in e[2]:
+            if a == H["cli_arg"] or (isinstance(a, tuple) and a and a[0] == "with" and a[1] == H["cli_arg"]):
+                return a
+        return None
+    n = 0
+    for fld, bname in want.items():
+        def value_of(p, fld=fld):
+            c = cli_passed(p)
+            if c is None:
+                return None
+            return D.Deep.project(c, cli_fidx[fld]) if c[0] == "with" else ("field", c, cli_fidx[fld])
+        roles.check_option_merge(R, f"cli-over-builder/{fld}", run, paths, H["cli"](fld), H["builder"](bname), value_of,
+                                 f"cli.{fld} = cli.{fld}.or(builder.{bname})")
+        n += 1
+    R.check(n == 3, "cli-over-builder/all-three", run, "", f"only {n} options are merged with the builder values")
     R.floor(4)
 
 
